@@ -83,6 +83,47 @@ Print Assumptions C15_layer_invariant.
 Print Assumptions C15_diff_applies.
 Print Assumptions C15_key_hash_is_script_expr.
 
+(* Several big_map values at once (two on-chain big_maps in one storage; DUP, then work on one copy):
+   the state is a store of big_map values, each carrying its own id; [chain] takes the id.
+   [slot_rel] says a value refines its own dictionary (same id, well-formed layer, GET = dictionary).
+   For every history of UPDATE / GET_AND_UPDATE on any slot, DUP and DROP, starting from literals /
+   bare ids: every value keeps answering like its OWN dictionary — a copy is unaffected by updates of
+   the original and vice versa, and one id's on-chain content never shows up under another id.
+   GET_AND_UPDATE's result on a slot is that slot's dictionary entry. *)
+Theorem C15_store_refines_layered :
+  forall K V H (eqb ltb : K -> K -> bool) (kh : K -> H) (chain : Z -> H -> option V), key_order eqb ltb ->
+  forall (init : list (Z * list (K * V))),
+    Forall (fun il => StronglySorted (fun a b => ltb a b = true) (keys (snd il))) init ->
+  forall ops,
+  let st := fold_left (s_step eqb ltb kh chain) ops
+              (map (fun il => {| bv_id := fst il; bv_map := bm_init (snd il) |}) init) in
+  let sp := fold_left (sd_step eqb) ops (map (fun il => sd_init eqb kh chain (fst il) (snd il)) init) in
+  Forall2 (fun b d => bv_id b = fst d /\
+                      (forall k, bv_get eqb kh chain k b = snd d k) /\
+                      (forall k, bv_mem eqb kh chain k b = match snd d k with Some _ => true | None => false end) /\
+                      (forall k vo, fst (bv_update eqb ltb kh chain k vo b) = snd d k)) st sp.
+Proof.
+  intros K V H eqb ltb kh chain KO init Hinit ops st sp.
+  assert (F0 : Forall2 (slot_rel K V H eqb ltb kh chain)
+                 (map (fun il => {| bv_id := fst il; bv_map := bm_init (snd il) |}) init)
+                 (map (fun il => sd_init eqb kh chain (fst il) (snd il)) init)).
+  { induction Hinit as [|il init Hil _ IH]; simpl; constructor; [|exact IH].
+    apply (slot_init K V H eqb ltb kh chain), Hil. }
+  pose proof (store_refines K V H eqb ltb kh chain KO ops _ _ F0) as F. fold st sp in F.
+  clear F0. induction F as [|b d st' sp' R _ IH]; constructor; [|exact IH]. destruct R as [Hid [Iv R]].
+  split; [exact Hid|]. split; [exact R|]. split.
+  - intro k. unfold bv_mem, bm_mem. unfold bv_get in R. rewrite R. reflexivity.
+  - intros k vo. apply (slot_update K V H eqb ltb kh chain KO b d k vo). split; [exact Hid | split; assumption].
+Qed.
+Print Assumptions C15_store_refines_layered.
+
+(* the script form of the store runs ends in the state of its history *)
+Theorem C15_store_script_follows_history : forall T khtbl chains st is,
+  snd (xs_script T khtbl chains st is)
+  = fold_left (s_step (py_eq T) (py_lt T) (lookup_val khtbl) (lookup_chain chains)) (ops_of xs_op is) st.
+Proof. intros. apply xs_script_state. Qed.
+Print Assumptions C15_store_script_follows_history.
+
 (* ---- non-vacuity and the two repaired defects as regression examples (keys, values, hashes: Z) *)
 Definition zchain (h : Z) : option Z := if Z.eqb h 1 then Some 100%Z else if Z.eqb h 2 then Some 200%Z else None.
 
